@@ -23,6 +23,7 @@ CMP = ("Eq", "Ne", "Lt", "Le", "Gt", "Ge")
 
 
 # From between integer types is lossless by definition
+_ORD_CMP = re.compile(r"core::cmp::impls::<impl core::cmp::Ord for (u8|u16|u32|u64|u128|usize|i8|i16|i32|i64|i128|isize)>::cmp")
 _FROM_INT = re.compile(r"core::convert::num::<impl core::convert::From<(u8|u16|u32|u64|usize|bool|i8|i16|i32|i64|isize)> for "
                        r"(u16|u32|u64|u128|usize|i16|i32|i64|i128|isize)>::from")
 
@@ -217,6 +218,7 @@ class Analysis:
 
     def _prescan_blocks(self, mut_borrows):
         self.usecount = {}
+        self.swap_borrows = set()     # `&mut x` temporaries whose only use is as an argument of core::mem::swap
         for blk in self.v.blocks:
             if blk.get("cleanup"):
                 continue
@@ -236,6 +238,24 @@ class Analysis:
         for bi, blk in enumerate(self.v.blocks):
             if blk.get("cleanup"):
                 continue
+            t_ = blk["term"]
+            if t_["t"] == "call" and ir.callee_name(t_["fn"]) == "core::mem::swap" and len(t_["args"]) == 2 and \
+                    all(a_.get("o") == "move" and not a_["p"] and self.usecount.get(a_["l"], 0) == 1 for a_ in t_["args"]):
+                defs_here = {s_["pl"]["l"]: s_ for s_ in blk["stmts"] if s_["s"] == "assign" and not s_["pl"]["p"]}
+                # either `_t = &mut x` directly or `_t = &mut *_u` with `_u = &mut x` (two-phase reborrow)
+                for a_ in t_["args"]:
+                    l_ = a_["l"]
+                    chain = []
+                    while l_ in defs_here and defs_here[l_]["rv"]["r"] == "ref" and defs_here[l_]["rv"].get("m") == "mut":
+                        chain.append(l_)
+                        pl_ = defs_here[l_]["rv"]["pl"]
+                        if pl_["p"] == ["deref"]:
+                            l_ = pl_["l"]
+                        elif not pl_["p"]:
+                            self.swap_borrows.update(chain)
+                            break
+                        else:
+                            break
             for s in blk["stmts"]:
                 if s["s"] != "assign":
                     continue
@@ -470,6 +490,7 @@ class Analysis:
         for k in [k for k, v in st.sym.items() if key_root(v[2]) == l]:
             del st.sym[k]
         for k in [k for k, v in st.rel.items() if (v[0] in ("cast", "inrange") and key_root(v[1]) == l)
+                  or (v[0] in ("ordcmp", "orddiscr") and (key_root(v[1]) == l or key_root(v[2]) == l))
                   or (v[0] in ("iterof", "enumof") and v[1][0] == "len" and key_root(v[1]) == l)]:
             del st.rel[k]
         for k in list(st.le):
@@ -735,8 +756,10 @@ class Analysis:
         if rv["r"] == "ref" and rv["m"] == "mut" and "deref" not in rv["pl"]["p"]:
             x = rv["pl"]["l"]
             lt = self.body["locals"][x]["ty"]
-            if not (lt["k"] == "adt" and self._is_for_range(lt)
-                    and any("`for` loop" in m for m in s.get("mac", []))):
+            if not pl["p"] and l in self.swap_borrows and not rv["pl"]["p"]:
+                pass      # borrowed only to be exchanged by core::mem::swap: the call's effect is modelled exactly
+            elif not (lt["k"] == "adt" and self._is_for_range(lt)
+                      and any("`for` loop" in m for m in s.get("mac", []))):
                 saved = st.arr.get(x)
                 self.havoc(st, x)
                 for r in [r for r, sh in st.shadow.items() if sh[0] == x]:
@@ -1035,7 +1058,12 @@ class Analysis:
         if symv is None and rv["r"] == "use" and alias is not None and alias in st.sym and key_root(st.sym[alias][2]) != l \
                 and key_root(alias) != l:
             symv = st.sym[alias]   # copy of a value with a known `C - k` form (e.g. field .0 of a checked pair)
+        ord_rel = None
+        if rv["r"] == "discr" and not rv["pl"]["p"] and st.rel.get(rv["pl"]["l"], (None,))[0] == "ordcmp" and l not in self.escaped:
+            ord_rel = ("orddiscr",) + tuple(st.rel[rv["pl"]["l"]][1:])
         self.kill_local(st, l)
+        if ord_rel is not None and key_root(ord_rel[1]) != l and key_root(ord_rel[2]) != l:
+            st.rel[l] = ord_rel
         if rel_up is not None and l not in self.escaped:
             ge_, st_ = rel_up
             ge_ = frozenset(k_ for k_ in ge_ if k_ != l and key_root(k_) not in self.escaped)
@@ -1195,6 +1223,34 @@ class Analysis:
             for k, v in st.iv.items():
                 if isinstance(k, tuple) and k[0] == "pl" and k[1] == a0_local and k[2][:2] == (("dc", 0), ("f", 0)):
                     paths[(("dc", 1), ("f", 0)) + k[2][2:]] = v
+        elif name == "core::mem::swap" and len(args) == 2 and all(a_.get("o") == "move" and not a_["p"] for a_ in args):
+            rx, ry = self.root_of(args[0]["l"]), self.root_of(args[1]["l"])
+            if rx is not None and ry is not None and rx[0] == ry[0] == "own" and rx[1] != ry[1] \
+                    and rx[1] not in self.escaped and ry[1] not in self.escaped and args[0]["l"] in self.swap_borrows \
+                    and args[1]["l"] in self.swap_borrows:
+                x_, y_ = rx[1], ry[1]
+                if self.rng[x_] is not None and self.rng[y_] is not None:
+                    ix, iy = self.get(st, st.alias.get(x_, x_)), self.get(st, st.alias.get(y_, y_))
+                    self.kill_local(st, x_)
+                    self.kill_local(st, y_)
+                    st.iv[x_], st.iv[y_] = (iy or self.rng[x_]), (ix or self.rng[y_])
+                elif self.pointee_ty(x_) is not None and self.pointee_ty(y_) is not None:
+                    lkx, lky = self.len_key(x_, st), self.len_key(y_, st)
+                    ix = ((lkx[1], lkx[1]) if lkx[0] == "const" else self.get(st, lkx)) if lkx is not None else None
+                    iy = ((lky[1], lky[1]) if lky[0] == "const" else self.get(st, lky)) if lky is not None else None
+                    self.kill_local(st, x_)
+                    self.kill_local(st, y_)
+                    if iy is not None:
+                        st.iv[("len", x_)] = iy
+                    if ix is not None:
+                        st.iv[("len", y_)] = ix
+                else:
+                    self.havoc(st, x_)
+                    self.havoc(st, y_)
+            else:
+                for r_ in (rx, ry):
+                    if r_ is not None and r_[0] == "own":
+                        self.havoc(st, r_[1])
         elif name == "core::slice::<impl [T]>::iter" and a0_local is not None:
             lk = self.len_key(a0_local, st)
             if lk is not None:
@@ -1313,6 +1369,11 @@ class Analysis:
         inrange = None
         if name is not None and name.endswith("::contains") and name.startswith("core::ops::range::Range") and len(args) == 2:
             inrange = self._range_contains(st, name, args)
+        elif name is not None and _ORD_CMP.fullmatch(name) and len(args) == 2 \
+                and all(a_.get("o") in ("copy", "move") and not a_["p"] for a_ in args):
+            ka_, kb_ = self._ref_value_key(st, args[0]["l"]), self._ref_value_key(st, args[1]["l"])
+            if ka_ is not None and kb_ is not None:
+                inrange = ("ordcmp", ka_, kb_)
         for a in args:
             if a.get("o") in ("copy", "move") and not a["p"]:
                 st.shadow.pop(a["l"], None)
@@ -1406,6 +1467,24 @@ class Analysis:
                 return ("promoted", rv["a"]["i"])
             else:
                 return ("local", l)
+        return None
+
+    def _ref_value_key(self, st, l):
+        """Key (or ("c", v)) of the integer a reference local points to: a local variable or a promoted constant."""
+        r = self._deref_local(l)
+        if r is None:
+            return None
+        if r[0] == "local":
+            x = r[1]
+            if self.rng[x] is None or x in self.escaped:
+                return None
+            return st.alias.get(x, x)
+        proms = self.body.get("promoted") or []
+        if r[1] < len(proms):
+            vals = [o.get("v") for blk in proms[r[1]]["blocks"] for s_ in blk["stmts"] if s_["s"] == "assign"
+                    and s_["rv"]["r"] == "use" for o in [s_["rv"]["a"]] if o.get("o") == "const" and isinstance(o.get("v"), int)]
+            if len(vals) == 1:
+                return ("c", vals[0])
         return None
 
     def _range_contains(self, st, name, args):
@@ -1699,6 +1778,16 @@ class Analysis:
                 is_other = (t["otherwise"] == s)
                 ns = st
                 inr = st.rel.get(d["l"]) if plain else None
+                if cond is None and inr is not None and inr[0] == "orddiscr" and len(vals) == 1 and not is_other:
+                    # Ordering: Less = -1 (255 as u8 / isize -1), Equal = 0, Greater = 1
+                    v_ = vals[0]
+                    op_ = {0: "Eq", 1: "Gt"}.get(v_, "Lt" if v_ in (255, -1, (1 << 64) - 1, (1 << 8) - 1, (1 << 128) - 1) else None)
+                    if op_ is not None:
+                        ns = st.copy()
+                        if not self.refine(ns, op_, inr[1], inr[2], True):
+                            continue
+                    out.append((s, ns))
+                    continue
                 if cond is None and inr is not None and inr[0] == "inrange":
                     truths = {bool(v) for v in vals}
                     if is_other:
@@ -1734,6 +1823,36 @@ class Analysis:
                     tn = self.v.local_tyname(d["l"])
                     if cur is not None and not any(cur[0] <= ir.wrap(x, tn) <= cur[1] for x in vals):
                         continue
+                elif not plain and d.get("o") in ("copy", "move") and self.path_of(d["p"]) is not None and d["l"] not in self.escaped \
+                        and isinstance(d.get("ty"), str) is False:
+                    # switch on an integer field (e.g. the payload of `Some(0)` in a match): refine the field key
+                    key = ("pl", d["l"], self.path_of(d["p"]))
+                    cur = st.iv.get(key) or self._range_via_alias(st, key)
+                    if cur is None:
+                        lt_ = self.v.local_ty(d["l"])
+                        if lt_.get("n") == "core::option::Option" and key[2] == (("dc", 1), ("f", 0)) and lt_.get("a") \
+                                and lt_["a"][0].get("k") == "prim":
+                            cur = ty_range(lt_["a"][0]["n"])
+                    if cur is not None:
+                        if len(vals) == 1 and not is_other:
+                            v_ = vals[0]
+                            if not (cur[0] <= v_ <= cur[1]):
+                                continue
+                            ns = st.copy()
+                            ns.iv[key] = (v_, v_)
+                        elif is_other and not vals:
+                            lo_, hi_ = cur
+                            excl = sorted(all_vals)
+                            while excl and excl[0] == lo_:
+                                lo_ += 1
+                                excl.pop(0)
+                            while excl and excl[-1] == hi_:
+                                hi_ -= 1
+                                excl.pop()
+                            if lo_ > hi_:
+                                continue
+                            ns = st.copy()
+                            ns.iv[key] = (lo_, hi_)
                 elif plain and self.rng[d["l"]] is not None and len(vals) == 1 and not is_other:
                     ns = st.copy()
                     v = ir.wrap(vals[0], self.v.local_tyname(d["l"]))
